@@ -426,6 +426,27 @@ def check(fx, rep, tier):
                 ops = t["ops"]
                 if kind.startswith("Overflow"):
                     tainted = [o for o in ops if ta.op_tainted(name, o)]
+                    # "a counter of in-memory objects cannot reach the maximum" holds for 64-bit integers only: an overflow-checked
+                    # operation on a narrower integer with a run-time operand is reached by ordinary counts (255 visits, 65 536 items)
+                    ltys = {l_["i"]: l_.get("ty") for l_ in fx.bodies[name]["mir"]["locals"]} if name in fx.bodies else {}
+                    narrow = None
+                    for o in ops:
+                        oty = o.get("ty") if o.get("k") == "const" else (ltys.get(F.op_base_local(o)) if not o.get("proj") else None)
+                        if oty in ("u8", "u16", "u32", "i8", "i16", "i32"):
+                            narrow = oty
+                    if narrow and not all(o.get("k") == "const" for o in ops) and not tainted:
+                        runtime = [o for o in ops if o.get("k") != "const"]
+                        if not all(F.op_base_local(o) is not None and ta.guarded(name, F.op_base_local(o), bl["i"]) for o in runtime):
+                            row = rows.get(key)
+                            if row is not None:
+                                used_rows.add(key)
+                                n_table += 1
+                            if row is not None and row[1].startswith("discharged-by:"):
+                                dep = row[1].split(":", 1)[1]
+                                rep.oblige(dependency_holds(fx, dep), "R01.2", key, w, f"overflow-checked `{kind[9:-1].lower()}` on a `{narrow}` in `{name}` is only safe while the rules of {dep} hold, and they currently report a violation", sample={"rule": "R01.2", "site": key, "width": narrow, "class": row[1]})
+                                continue
+                            rep.oblige(row is not None, "R01.2", key, w, f"overflow-checked `{kind[9:-1].lower()}` on a `{narrow}` in `{name}` with a run-time operand and no dominating bound: a count of this width is reached by ordinary inputs (the 256th visit, the 65 536th item), and the operation panics there", sample={"rule": "R01.2", "site": key, "width": narrow, "discharge": f"table: {row[1]}" if row else None})
+                            continue
                     unguarded = []
                     for o in tainted:
                         l = F.op_base_local(o)
